@@ -91,6 +91,13 @@ class Ctx:
         shard seed.  Collect-mode tests never raise; raise-mode tests call ctx.fail()
         before raising, Hypothesis replays the minimal example last, so the last
         recorded case per bucket is the shrunk one."""
+        fz = os.environ.get("VERIF_FUZZ")
+        if fz is not None:
+            # coverage-guided child (see fuzz_campaign): only the selected @given test runs, driven by atheris
+            ftag, runs = fz.rsplit("|", 1)
+            if ftag == tag:
+                self._atheris(test, int(runs))
+            return
         seeded = hypothesis.seed(self.hseed(tag))(test)
         try:
             seeded()
@@ -106,6 +113,105 @@ class Ctx:
             raise
         except BaseException:
             raise HarnessError("unexpected exception in test body:\n" + traceback.format_exc())
+
+    # ---- coverage-guided campaigns (atheris on libFuzzer driving the same @given test) ---------------
+    @property
+    def fuzzing(self):
+        return os.environ.get("VERIF_FUZZ") is not None
+
+    def _atheris(self, test, runs):
+        """never returns: libFuzzer exits the process; the result file is rewritten every 500 executions"""
+        import atheris
+
+        out = os.environ["VERIF_FUZZ_OUT"]
+        fuzz_one = test.hypothesis.fuzz_one_input
+        n = [0]
+
+        def dump(status="ok", error=None):
+            res = self.result()
+            res["status"] = status
+            if error:
+                res["error"] = error
+            res["atheris_executions"] = n[0]
+            with open(out + ".tmp", "w") as f:
+                json.dump(res, f, default=repr)
+            os.replace(out + ".tmp", out)
+
+        def one(data):
+            n[0] += 1
+            try:
+                fuzz_one(data)
+            except _Failure:
+                pass
+            except BaseException:
+                dump("harness", "exception escaped the test body under atheris:\n" + traceback.format_exc())
+                os._exit(0)
+            if n[0] % 500 == 0 or n[0] >= runs - 1:
+                dump()
+
+        corpus = os.path.join(self.workdir, "ath-corpus-%02d" % self.shard)
+        os.makedirs(corpus, exist_ok=True)
+        dump()
+        atheris.Setup([sys.argv[0], corpus, "-runs=%d" % runs, "-seed=%d" % (self.hseed("atheris") % (2 ** 31 - 2) + 1), "-max_len=8192", "-len_control=0",
+                       "-timeout=300", "-rss_limit_mb=0", "-verbosity=0", "-print_final_stats=0", "-artifact_prefix=%s/" % corpus], one)
+        atheris.Fuzz()
+        os._exit(0)
+
+    def fuzz_campaign(self, tag, runs):
+        """Runs the @given test registered under `tag` for `runs` executions under atheris in a child process (python-level
+        coverage of the mwlib sources guides the byte mutations that Hypothesis decodes into cases) and merges what it
+        recorded.  No-op inside such a child."""
+        if self.fuzzing:
+            return
+        if isinstance(runs, tuple):  # (whole-run budget quick, thorough); VERIF_ATHERIS_QUICK=<n> forces a quick-tier campaign
+            total = runs[1] if self.thorough else int(os.environ.get("VERIF_ATHERIS_QUICK", runs[0]))
+            if not total:
+                return
+            runs = max(200, int(total * float(os.environ.get("VERIF_SCALE", "1"))) // self.nshards)
+        import subprocess
+
+        out = os.path.join(self.workdir, "fuzz%02d-%s.json" % (self.shard, h64(tag)[:6]))
+        env = dict(os.environ, VERIF_FUZZ="%s|%d" % (tag, runs), VERIF_FUZZ_OUT=out)
+        cmd = [sys.executable, "-W", "ignore", "-m", "vf.worker", self.prop, self.tier, str(self.seed), str(self.shard), str(self.nshards), self.workdir]
+        proc = subprocess.Popen(cmd, env=env, stdout=subprocess.DEVNULL, stderr=subprocess.PIPE)
+        import threading
+
+        errbuf = []
+        th = threading.Thread(target=lambda: errbuf.append(proc.stderr.read()), daemon=True)
+        th.start()
+        while proc.poll() is None:
+            self.heartbeat()
+            time.sleep(2)
+        th.join(5)
+        try:
+            with open(out) as f:
+                res = json.load(f)
+        except (OSError, ValueError):
+            raise HarnessError("atheris child for %r left no result (rc=%r): %s" % (tag, proc.returncode, b"".join(errbuf)[-1500:].decode("utf-8", "replace")))
+        if res.get("status") != "ok":
+            raise HarnessError("atheris child for %r: %s" % (tag, res.get("error")))
+        if proc.returncode not in (0, None) and not res["failures"]:
+            # libFuzzer stopped by itself (timeout / crash of the interpreter) without a recorded failure
+            raise HarnessError("atheris child for %r ended with rc=%r after %d executions: %s" % (
+                tag, proc.returncode, res.get("atheris_executions", 0), b"".join(errbuf)[-1500:].decode("utf-8", "replace")))
+        self.evaluations += res["evaluations"]
+        self.nontrivial.update(res["nontrivial"])
+        self.bulk_nontrivial += res.get("bulk_nontrivial", 0)
+        # the campaign's labels are kept apart (prefix "atheris/"): the generator floors judge the Hypothesis-drawn cases only
+        for l, c in res["labels"].items():
+            self.labels["atheris/" + l] = self.labels.get("atheris/" + l, 0) + c
+        self.labels["atheris-cases"] = self.labels.get("atheris-cases", 0) + res["evaluations"]
+        key = "atheris-executions" + (":" + tag if tag else "")
+        self.labels[key] = self.labels.get(key, 0) + res.get("atheris_executions", 0)
+        for b, f in res["failures"].items():
+            cur = self.failures.get(b)
+            if cur is None or f["size"] < cur["size"]:
+                self.failures[b] = dict(f, count=f["count"] + (cur["count"] if cur else 0))
+            else:
+                cur["count"] += f["count"]
+        for l, ss in res["samples"].items():
+            self.samples.setdefault("atheris:" + l, ss[:1])
+        self.excluded += res.get("excluded", 0)
 
     # ---- counting ------------------------------------------------------------------
     def announce(self, case):
